@@ -10,6 +10,8 @@ BOUNDS = {"programs": "every public operation on (a) healthy caches with symboli
                       "wrong field types, missing fields, extra fields; empty, NUL-filled and newline-only buckets; files where directories are expected and "
                       "directories where files are expected; dangling and looping symlinks",
           "integrity_arguments": "well-formed (as the property assumes)",
+          "destinations": "extraction to the empty path, '/', '.', '..', an existing directory (incl. the cache's own), a path below a missing directory "
+                          "(trailing slashes and relative file names are not modelled)",
           "open_writers": "the cache is cleared / tmp removed / directories replaced by files between a writer's first chunk and its commit",
           "outside": "out-of-memory; data larger than the address space"}
 
@@ -165,6 +167,24 @@ def sizes(ctx, keyed, nchunks, api):
     expect_no_panic(ctx, o, tag + ":commit", "committing with an arbitrary declared size")
 
 
+ODD_DESTS = ["", "/", ".", "..", ROOT, ROOT + "/missing-dir/file", ROOT + "/cache", ROOT + "/cache/index-v5"]
+
+
+def odd_destinations(ctx, op, dest, api):
+    """Extraction to destinations that are empty, the root, a directory, relative, or below a missing directory:
+    an error is fine, a panic / abort / hang is not."""
+    scn = ctx.new_scn(api=api)
+    D = scn.blob("D", max_len=64)
+    r = scn.write("k", scn.whole(D))
+    if r.kind != "ok":
+        return
+    tag = "C20:%s:odd-dest:%s:%r" % (api, op, dest)
+    by_hash = "_hash" in op
+    out = scn.extract(op, dest, sri=r.value) if by_hash else scn.extract(op, dest, key="k")
+    expect_no_panic(ctx, out, tag, "%s to the destination %r" % (op, dest))
+    expect_no_panic(ctx, scn.read("k"), tag + ":read-after", "reading the entry afterwards")
+
+
 def open_writer(ctx, change, keyed, declared, api):
     """The cache directory changes under an open writer (another process clears the cache, removes tmp/, or
     replaces directories): write, commit and drop must still terminate with a value or an error."""
@@ -229,6 +249,12 @@ def tasks(tier, flavours):
                     if tier == "quick" and ((fl != "sync" and (declared or not keyed)) or (declared and not keyed)):
                         continue
                     out.append(dict(module="C20", family="open_writer", flavour=fl, params=dict(change=change, keyed=keyed, declared=declared, api=api)))
+        xops = ["copy", "copy_unchecked", "copy_hash", "hard_link", "reflink"] if api == "sync" else ["copy", "copy_unchecked", "hard_link"]
+        for i, dest in enumerate(ODD_DESTS):
+            for j, op in enumerate(xops):
+                if tier == "quick" and (fl != "sync" and (i + j) % 3) :
+                    continue
+                out.append(dict(module="C20", family="odd_destinations", flavour=fl, params=dict(op=op, dest=dest, api=api)))
         for keyed in (True, False):
             for n in ((1, 2) if tier == "quick" else (1, 2, 3)):
                 out.append(dict(module="C20", family="sizes", flavour=fl, params=dict(keyed=keyed, nchunks=n, api=api)))
